@@ -33,8 +33,8 @@ Init == \E i \in 1..Len(Traces) :
 \* two non-verbose messages always
 \* (with the no-stream overloads or a std::ostream the harness sees only the functor observers: sk # 0)
 Visible(e) == /\ e[1] # "tau"
-              /\ IF Traces[tix].sk = 0 THEN (opt.v \/ e[1] \in {"tval", "call", "dcall", "synerr", "unexp"})
-                 ELSE e[1] \in {"tval", "call", "dcall"}
+              /\ IF Traces[tix].sk = 0 THEN (opt.v \/ e[1] \in {"tval", "call", "dcall", "lexcall", "synerr", "unexp"})
+                 ELSE e[1] \in {"tval", "call", "dcall", "lexcall"}
 Match(e, x) == e[1] = x[1] /\ Len(e) = Len(x) /\ e = x
 
 Step ==
